@@ -302,7 +302,7 @@ def judge_error_batch(rep, bld, dia, items):
         if r1.p is not None:
             img = r1.parsed().image()
             segs = {s for (s, a) in img}
-            got = slot_bytes(img, min(segs) if segs else 0, 256)
+            got = slot_bytes(img, min(segs) if segs else 0, dia.slot_of(0, it) if hasattr(dia, "slot_of") else 256)
         obs = "crash" if er.crashed(r1) else ("value" if got else "silent")
         report(rep, "the operation is undefined / ill-typed but no error is reported", it, dia, src, obs,
                extra="(alone: rc=%s, bytes %s)" % (r1.rc, got))
